@@ -64,7 +64,7 @@ def gen_cases(tier, seed):
     nfree, ninj, ncli = (200, 1000, 12) if tier == "quick" else (6000, 44000, 300)
     cases = []
     for i in range(nfree):
-        cases.append({"mode": "free", "seed": rng.getrandbits(40), "shape": [None, "diamond", "respell", "symlink", "cycle", "subdirs", "chain", "siblings", "random"][i % 9]})
+        cases.append({"mode": "free", "seed": rng.getrandbits(40), "shape": [None, "diamond", "respell", "symlink", "cycle", "subdirs", "chain", "siblings", "random", "dirgraph"][i % 10]})
     for i in range(ninj):
         cases.append({"mode": "inject", "seed": rng.getrandbits(40), "kind": KINDS[i % len(KINDS)], "place": rng.choice(["same", "any", "any", "any"]),
                       "order": i % 2, "pos": rng.choice(["first", "last"])})
